@@ -40,6 +40,32 @@ def run_endpoints(rep, kf, tier, seed, prop):
             for opid, rs in (("op_resp", resp), ("op_resp_none", {"200": {"description": ""}, "404": {"description": ""}})):
                 for entry in ("_parse_response", "_build_response"):
                     contracts.append((opid, ef.parse_response_contract(pkg, doc, opid, rs, version, entry)))
+        if prop == "C03":
+            # an operation with security requirements demands an authenticated client (signature of the four entry points)
+            import inspect
+            for opid, tag, secured in (("op_resp_sec", "r", True), ("op_resp", "r", False)):
+                ob = core.Obligation(id=f"C03.F.{opid}.client-annotation[{version}]", props=["C03"],
+                                     unit=f"endpoint_module.py.jinja as rendered for {'a secured' if secured else 'an unsecured'} operation",
+                                     where="openapi_python_client/templates/endpoint_module.py.jinja", backend="native (signature of the generated functions)",
+                                     formula="sync_detailed / asyncio_detailed / sync / asyncio take `client: AuthenticatedClient` iff the operation "
+                                             "declares security requirements (otherwise AuthenticatedClient or Client)")
+                try:
+                    mod = pkg.module(f"api.{tag}.{opid}")
+                    bad = []
+                    for entry in ("sync_detailed", "asyncio_detailed", "sync", "asyncio"):
+                        fn = getattr(mod, entry, None)
+                        if fn is None:
+                            continue
+                        ann = inspect.signature(fn).parameters["client"].annotation
+                        text = ann if isinstance(ann, str) else getattr(ann, "__name__", str(ann))
+                        only_auth = "AuthenticatedClient" in text and "Union" not in text and ", Client" not in text
+                        if secured != only_auth:
+                            bad.append(f"{entry}: client: {text}")
+                    ob.status = core.REFUTED if bad else core.PROVED
+                    ob.detail = "; ".join(bad) if bad else "four entry points checked"
+                except Exception as e:      # noqa: BLE001
+                    ob.status, ob.detail = core.UNDECIDED, f"{type(e).__name__}: {e}"
+                rep.add(ob)
         if prop == "C03" and version == "3.0.3":
             import contracts.client_f as clf
             for c in clf.all_contracts(pkg):
